@@ -59,6 +59,8 @@ class C01(Prop):
             ops, objs = [], "N"
             if prov == "lit" or any(isinstance(x, tuple) for x in (a, b) if x is not None):
                 la, lb = lit(a), (lit(b) if b is not NotImplemented else None)
+            elif prov == "regexp-subject-var":
+                pass
             elif prov == "var":
                 la, lb = "va", "vb"
                 if a is not None:
@@ -86,6 +88,14 @@ class C01(Prop):
                     out.append(mk(u, a, NotImplemented, prov, "unary-" + prov))
                 for b in [0, 1, 2, 3, -1, 65536, "a", 1.5, None]:
                     out.append(mk("%s[%s]", a, b, prov, "index-" + prov))
+        # ~= and !~ : the subject is tested line by line, each line stripped of outer white space
+        subjects = ["steve", "  steve", "steve  ", " steve ", "   ", "", "a b", " a b ", "x\nsteve", "x \n  steve \ny", "\tsteve\t", "Steve", 10, 1.5, True, None]
+        patterns = ["/^steve$/", "/steve/", "/^$/", "/[ ]/", "/^a b$/", "/^\\s/", "/\\s$/", "/^steve$/i", "/^1/", "/^x/", "/e$/"]
+        for prov in provs:
+            for a in subjects:
+                for r in patterns:
+                    for op in ("~=", "!~"):
+                        out.append(mk("(%s " + op + " %s)", a, ("re", r), prov if not isinstance(a, type(None)) else "lit", "regexp-" + prov))
         n = 30000 if tier == "thorough" else 2500
         for _ in range(n):
             g = gen.Gen(rng, max_depth=rng.choice([2, 3, 4]), illtyped=rng.choice([0.0, 0.05, 0.2]),
